@@ -13,7 +13,7 @@ open Bp Cbor Frag
 abbrev prepared (cfg : Cfg) (b : FBundle) : FBundle := prep cfg cfg.now b
 
 private theorem prep_primary (cfg : Cfg) (hsec : cfg.secStep = id) (b : FBundle) :
-    (prep cfg cfg.now b).primary = fillPrimary (applyPrimary cfg.now b.primary) := by
+    (prep cfg cfg.now b).primary = fillPrimary (applyOpt cfg.now b.primary) := by
   simp [prep, hsec, fillFields]
 
 private theorem prep_blocks (cfg : Cfg) (hsec : cfg.secStep = id) (b : FBundle) :
@@ -22,24 +22,10 @@ private theorem prep_blocks (cfg : Cfg) (hsec : cfg.secStep = id) (b : FBundle) 
 
 private theorem prep_filled (cfg : Cfg) (hsec : cfg.secStep = id) (b : FBundle) (hwf : CrcWf b) :
     Filled (prep cfg cfg.now b) := by
-  have : prep cfg cfg.now b = fillFields { b with primary := applyPrimary cfg.now b.primary } := by
+  have : prep cfg cfg.now b = fillFields { b with primary := applyOpt cfg.now b.primary } := by
     simp [prep, hsec]
-  rw [this]; exact hwf
-
-private theorem prep_time (cfg : Cfg) (hsec : cfg.secStep = id) (b : FBundle)
-    (hnow : b.primary.ts.time ≠ 0 ∨ cfg.now.time ≠ 0) :
-    (prep cfg cfg.now b).primary.ts.time ≠ 0 ∧ (prep cfg cfg.now b).primary.lifetime ≠ 0 := by
-  rw [prep_primary cfg hsec]
-  simp only [fillPrimary, applyPrimary]
-  constructor
-  · split
-    · rename_i h; rcases hnow with h' | h'
-      · exact absurd (by simpa using h) h'
-      · exact h'
-    · rename_i h; simpa using h
-  · split
-    · decide
-    · rename_i h; simpa using h
+  rw [this]
+  cases cfg.now <;> exact hwf
 
 /-- every scheduled fragment, characterised -/
 private theorem frag_facts (cfg : Cfg) (hsec : cfg.secStep = id) (m : Nat) (b : FBundle) (hwf : CrcWf b)
@@ -59,13 +45,13 @@ private theorem frag_facts (cfg : Cfg) (hsec : cfg.secStep = id) (m : Nat) (b : 
   · exact filled_fragAt _ _ _ _ _ _ hfl.1 hfl.2
   · rw [fragAt_primary]; exact isFragment_setFragFlag _
 
-/-- **C05_size.** Security policy off, CRC values of the width of their type, clock after the DTN
-    epoch (or creation time set): whenever `_create` fragments, every byte string handed to the CL for
+/-- **C05_size.** Security policy off, CRC values of the width of their type; the request may be made
+    as source or with `as_source=False` (forwarding), creation time 0 included: whenever `_create` fragments, every byte string handed to the CL for
     this send request — for all payload lengths, MTUs, CRC types and extension-block sets — has
     length ≤ MTU. (When it does not fragment see `C05_unchanged`, `C05_impossible_…`.) -/
 theorem C05_size (cfg : Cfg) (hsec : cfg.secStep = id)
     (hcrc : ∀ t d, (cfg.crcFn t d).length = crcWidth t) (m : Nat) (b : FBundle) (hwf : CrcWf b)
-    (hnow : b.primary.ts.time ≠ 0 ∨ cfg.now.time ≠ 0) (fs : List FBundle)
+    (fs : List FBundle)
     (hfs : create (some m) (prepared cfg b) = .frags fs) :
     ∀ out ∈ clOutputs cfg (some m) b, out.length ≤ m := by
   intro out hout
@@ -77,15 +63,14 @@ theorem C05_size (cfg : Cfg) (hsec : cfg.secStep = id)
     simp only [Option.toList, List.nil_append, List.mem_flatMap] at hout
     obtain ⟨f, hf, ho⟩ := hout
     obtain ⟨h1, h2, h3, h4, h5⟩ := frag_facts cfg hsec m b hwf hok.1 fs hfs f hf
-    have ht := prep_time cfg hsec b hnow
-    rw [resend_length cfg hsec hcrc (some m) f h2 (by rw [h3]; exact ht.1) (by rw [h4]; exact ht.2) h5 out ho]
+    rw [resend_length cfg hsec hcrc (some m) f h2 h5 out ho]
     exact h1
   · rw [sendBundle_bad _ _ _ _ hok] at hout
     simp at hout
 
 /-- model instance used by the examples and counterexamples: zero CRC values, security off -/
 def cfgW : Cfg :=
-  { crcFn := fun t _ => zeros (crcWidth t), secStep := id, now := ⟨1, 0⟩, nowRe := ⟨1, 1⟩, reroute := true }
+  { crcFn := fun t _ => zeros (crcWidth t), secStep := id, now := some ⟨1, 0⟩, reroute := true }
 
 def bytesUpTo (n : Nat) : Bytes := (List.range n).map UInt8.ofNat
 
@@ -156,6 +141,31 @@ theorem C05_fields (m : Nat) (b2 : FBundle) (fs : List FBundle) (hfs : create (s
     rw [hloop]; exact hf
   obtain ⟨o, _, _, _, rfl⟩ := mem_createLoop _ _ _ hmem
   refine ⟨rfl, rfl, rfl, rfl, rfl, rfl, rfl, rfl, isFragment_setFragFlag _, pdata, by simp [FBundle.payload, hpb, hpd], rfl⟩
+
+/-- **C05_forward_identity (fix eb817bd).** A request made with `as_source=False` (forwarding) is
+    fragmented with the primary block as received: every fragment keeps the original source, creation
+    timestamp — also when the creation time is 0 —, lifetime and report-to; and since fragments
+    re-enter `send_bundle` with `as_source=False` too (`resend`), nothing replaces them later. -/
+theorem C05_forward_identity (cfg : Cfg) (hsec : cfg.secStep = id) (hfwd : cfg.now = none) (m : Nat)
+    (b : FBundle) (fs : List FBundle) (hfs : create (some m) (prepared cfg b) = .frags fs) :
+    ∀ f ∈ fs, f.primary.src = b.primary.src ∧ f.primary.ts = b.primary.ts ∧
+      f.primary.lifetime = b.primary.lifetime ∧ f.primary.rpt = b.primary.rpt ∧ f.primary.dest = b.primary.dest := by
+  intro f hf
+  obtain ⟨_, _, h3, h4, h5, h6, h7, _⟩ := C05_fields m _ fs hfs f hf
+  have hp : (prepared cfg b).primary = fillPrimary b.primary := by
+    rw [prep_primary cfg hsec, hfwd]; rfl
+  rw [hp] at h3 h4 h5 h6 h7
+  exact ⟨h4, h6, h7, h5, h3⟩
+
+/-- a forwarded bundle with creation time 0 (identified by its sequence number 7) and lifetime 0 -/
+def fwdB : FBundle := { exB with primary := { exB.primary with ts := ⟨0, 7⟩, lifetime := 0 } }
+
+def fragSummary : CreateRes → List (Nat × Nat × Nat × Nat)
+  | .frags fs => fs.map (fun (f : FBundle) => (f.primary.ts.time, f.primary.ts.seq, f.primary.lifetime, f.primary.fragOff))
+  | _ => []
+
+example : fragSummary (create (some 90) (prepared { cfgW with now := none } fwdB))
+    = [(0, 7, 0, 0), (0, 7, 0, 23), (0, 7, 0, 59)] := by decide +kernel
 
 /-- **C05_blocks.** The block list of a fragment is exactly the selection of the container's blocks
     for its offset, with the payload data replaced by the fragment's part (`setPayload`: the payload
@@ -307,7 +317,6 @@ example : clOutputs cfgW (some 40) witness = [] ∧ create (some 40) (prepared c
     itself in one of the `C05_unchanged` cases. -/
 theorem C05_sound (cfg : Cfg) (hsec : cfg.secStep = id)
     (hcrc : ∀ t d, (cfg.crcFn t d).length = crcWidth t) (m : Nat) (b : FBundle) (hwf : CrcWf b)
-    (hnow : b.primary.ts.time ≠ 0 ∨ cfg.now.time ≠ 0)
     (P : Bytes) (hpay : (prepared cfg b).payload = some P) :
     ∀ out ∈ clOutputs cfg (some m) b, out.length ≤ m ∨
       (out = finalize cfg (prepared cfg b) ∧ create (some m) (prepared cfg b) = .skip) := by
@@ -322,7 +331,7 @@ theorem C05_sound (cfg : Cfg) (hsec : cfg.secStep = id)
       simp at hout
       exact ⟨hout, rfl⟩
     · simp [clOutputs, sendBundle_bad _ _ _ _ hok] at hout
-  | frags fs => exact Or.inl (C05_size cfg hsec hcrc m b hwf hnow fs hcr out hout)
+  | frags fs => exact Or.inl (C05_size cfg hsec hcrc m b hwf fs hcr out hout)
   | raised fs c =>
     rw [C05_impossible_sends_nothing cfg hsec m b hwf P hpay fs c hcr] at hout
     simp at hout
@@ -333,7 +342,7 @@ theorem C05_sound (cfg : Cfg) (hsec : cfg.secStep = id)
     payload ranges handed to the CL tile the payload". -/
 theorem C05_outputs (cfg : Cfg) (hsec : cfg.secStep = id) (hre : cfg.reroute = true) (m : Nat) (b : FBundle)
     (hn : numsOk b = true) (hc : crcTypesOk b = true)
-    (hnow : b.primary.ts.time ≠ 0 ∨ cfg.now.time ≠ 0) (fs : List FBundle)
+    (fs : List FBundle)
     (hfs : create (some m) (prepared cfg b) = .frags fs) :
     clOutputs cfg (some m) b = fs.map (fun f => finalize cfg (fillFields f)) := by
   simp only [clOutputs, sendBundle_ok _ _ _ _ hn hc]
@@ -342,7 +351,6 @@ theorem C05_outputs (cfg : Cfg) (hsec : cfg.secStep = id) (hre : cfg.reroute = t
   rw [hfs']
   simp only [Option.toList, List.nil_append]
   obtain ⟨pb, pdata, _, _, _, _, _, _, hloop⟩ := create_frags hfs
-  have ht := prep_time cfg hsec b hnow
   have hall : ∀ f ∈ fs, resend cfg (some m) f = [finalize cfg (fillFields f)] := by
     intro f hf
     have hmem : f ∈ (createLoop m (headLen pdata.length) pdata (prepared cfg b).primary
@@ -357,13 +365,13 @@ theorem C05_outputs (cfg : Cfg) (hsec : cfg.secStep = id) (hre : cfg.reroute = t
     have hct : (prepared cfg b).primary.crcType ≤ 2 ∧
         ∀ x ∈ (prepared cfg b).blocks, x.c.crcType ≤ 2 := by
       simp only [crcTypesOk, Bool.and_eq_true, decide_eq_true_eq, List.all_eq_true] at hc
-      refine ⟨by rw [prep_primary cfg hsec]; exact hc.1, ?_⟩
+      refine ⟨by rw [prep_primary cfg hsec]; cases cfg.now <;> exact hc.1, ?_⟩
       intro x hx
       rw [prep_blocks cfg hsec] at hx
       obtain ⟨z, hz, rfl⟩ := List.mem_map.1 hx
       simpa using hc.2 z hz
     exact resend_eq cfg hsec hre (some m) _ (numsOk_fragAt _ _ _ _ _ _ hnod)
-      (crcTypesOk_fragAt _ _ _ _ _ _ hct.1 hct.2) ht.1 ht.2 (by rw [fragAt_primary]; exact isFragment_setFragFlag _)
+      (crcTypesOk_fragAt _ _ _ _ _ _ hct.1 hct.2) (by rw [fragAt_primary]; exact isFragment_setFragFlag _)
   clear hloop hfs hfs'
   induction fs with
   | nil => rfl
@@ -448,7 +456,7 @@ def ex300 : FBundle :=
     without the hypothesis that the security steps are the identity. -/
 def C05_size_security_statement : Prop :=
   ∀ (cfg : Cfg) (m : Nat) (b : FBundle) (fs : List FBundle),
-    (∀ t d, (cfg.crcFn t d).length = crcWidth t) → CrcWf b → (b.primary.ts.time ≠ 0 ∨ cfg.now.time ≠ 0) →
+    (∀ t d, (cfg.crcFn t d).length = crcWidth t) → CrcWf b →
     create (some m) (prepared cfg b) = .frags fs → ∀ out ∈ clOutputs cfg (some m) b, out.length ≤ m
 
 /-- D21 in the model: with a step that adds a block, every fragment re-enters it through
@@ -469,7 +477,7 @@ theorem C05_size_security_counterexample : ¬ C05_size_security_statement := by
     simp [fillFields, ex300] at hx
     subst hx
     exact Or.inr ⟨_, rfl, rfl⟩
-  have hall := h cfgSec 230 ex300 fs (fun t d => zeros_length _) hwf (Or.inl (by decide)) hfs
+  have hall := h cfgSec 230 ex300 fs (fun t d => zeros_length _) hwf hfs
   have hl : (clOutputs cfgSec (some 230) ex300).map List.length = [309, 309, 154] := C05_size_security_witness.2
   have hmem : ∃ out ∈ clOutputs cfgSec (some 230) ex300, out.length = 309 := by
     have : 309 ∈ (clOutputs cfgSec (some 230) ex300).map List.length := by rw [hl]; simp
